@@ -3,6 +3,8 @@ use crate::util::Ctx;
 
 pub mod real;
 pub mod c01;
+pub mod c02;
+pub mod ctlrun;
 pub mod c03;
 pub mod c04;
 pub mod c11;
@@ -15,6 +17,14 @@ pub fn run(ctx: &mut Ctx) -> bool {
         "C01" => {
             ctx.rule = c01::RULE.into();
             c01::run(ctx)
+        }
+        "C02" => {
+            ctx.rule = c02::RULE_C02.into();
+            c02::run_c02(ctx)
+        }
+        "C10" => {
+            ctx.rule = c02::RULE_C10.into();
+            c02::run_c10(ctx)
         }
         "C03" => {
             ctx.rule = c03::RULE.into();
@@ -34,7 +44,8 @@ pub fn run(ctx: &mut Ctx) -> bool {
         }
         "C16" => {
             ctx.rule = c16::RULE.into();
-            c16::run(ctx)
+            c16::run(ctx);
+            c02::run_c16b(ctx)
         }
         "C20" => {
             ctx.rule = c20::RULE.into();
